@@ -21,14 +21,16 @@ var c15Pins = []pin{
 	// (b)+(c) grammar layering and constructors
 	{"parseType", "nf", "if((slice.Length(#1(" + c15TA + ")) eq 1), (#0(" + c15TA + "), slice.Head(#1(" + c15TA + "))), (#0(" + c15TA + "), newFFunc(#1(" + c15TA + "))))",
 		"a type is a flat arrow list; one element ⇒ no function wrapper, else func over the whole flat list (right nesting only through parentheses)"},
-	{"parseTypeArrows", "nf", "if((psCurrentTT(#0(" + c15ET + ")) eq var:New_TokenType_RARROW), (#0(parseTypeArrows(p0, psConsume(var:New_TokenType_RARROW, #0(" + c15ET + ")))), slice.PushHead(#1(" + c15ET + "), #1(parseTypeArrows(p0, psConsume(var:New_TokenType_RARROW, #0(" + c15ET + ")))))), (#0(" + c15ET + "), [#1(" + c15ET + ")]))",
+	{"parseTypeArrows", "nf", "if((psCurrentTT(#0(" + c15ET + ")) eq var:New_TokenType_RARROW), (#0(parseTypeArrows(p0, psConsume(var:New_TokenType_RARROW, #0(" + c15ET + ")))), slice.PushHead(#1(" + c15ET + "), #1(parseTypeArrows(p0, psConsume(var:New_TokenType_RARROW, #0(" + c15ET + ")))))), (#0(" + c15ET + "), [#1(" + c15ET + ")]))" +
+		" ||| ParseSepList(parseElemType(p0, _), var:New_TokenType_RARROW, p1)",
 		"arrow operands are tuple-level elements, collected left to right"},
 	{"parseElemType", "nf", "if((slice.Length(#1(" + c15SL + ")) eq 1), (#0(" + c15SL + "), slice.Head(#1(" + c15SL + "))), (#0(" + c15SL + "), New_FType_FTuple(TupleType{ElemTypes: #1(" + c15SL + ")})))",
 		"T*U*V is one flat tuple of []-level terms; one element ⇒ no tuple wrapper; a parenthesised tuple stays one element"},
 	{"parseTermType", "nf", "if(psCurIs(var:New_TokenType_LSBRACKET, p1), (#0(parseTermType(p0, " + c15MC + ")), New_FType_FSlice(SliceType{ElemType: #1(parseTermType(p0, " + c15MC + "))})), parseAtomType(p0, p1))",
 		"[]T binds tighter than *: [] applies to the following term, recursively"},
 	{"newFFunc", "nf", "New_FType_FFunc(FuncType{Targets: p0})", "function type keeps the flat target list"},
-	{"parseTypeList", "nf", "if(psCurIs(var:New_TokenType_COMMA, #0(p0(p1))), (#0(parseTypeList(p0, psConsume(var:New_TokenType_COMMA, #0(p0(p1))))), slice.PushHead(#1(p0(p1)), #1(parseTypeList(p0, psConsume(var:New_TokenType_COMMA, #0(p0(p1))))))), (#0(p0(p1)), [#1(p0(p1))]))",
+	{"parseTypeList", "nf", "if(psCurIs(var:New_TokenType_COMMA, #0(p0(p1))), (#0(parseTypeList(p0, psConsume(var:New_TokenType_COMMA, #0(p0(p1))))), slice.PushHead(#1(p0(p1)), #1(parseTypeList(p0, psConsume(var:New_TokenType_COMMA, #0(p0(p1))))))), (#0(p0(p1)), [#1(p0(p1))]))" +
+		" ||| ParseSepList(p0, var:New_TokenType_COMMA, p1)",
 		"type arguments are full types separated by commas, in order"},
 	// (d) printer
 	{"FTypeToGo", "tpl", `match(p0){FType_FInt: "int"; FType_FBool: "bool"; FType_FFloat: "float64"; FType_FAny: "any"; FType_FString: "string"; FType_FUnit: ""; FType_FFunc: ⟨funcTypeToGo(payload(FType_FFunc), FTypeToGo)⟩; FType_FRecord: ⟨recordTypeToGo(FTypeToGo, payload(FType_FRecord))⟩; FType_FUnion: ⟨fUnionToGo(FTypeToGo, payload(FType_FUnion))⟩; FType_FParamd: ⟨fpToGo(FTypeToGo, payload(FType_FParamd))⟩; FType_FSlice: ⟨fSliceToGo(payload(FType_FSlice), FTypeToGo)⟩; FType_FTuple: ⟨fTupleToGo(FTypeToGo, payload(FType_FTuple))⟩; FType_FFieldAccess: "FieldAccess_Unresoled"; FType_FTypeVar: ⟨payload(FType_FTypeVar).Name⟩}`,
@@ -109,6 +111,23 @@ func checkC15Atom(c *Ctx, f *FC) {
 	// name tests: if((psCurrent(p1).stringVal eq "NAME"), (psNext(p1), var:New_FType_X), …)
 	table := map[string]string{}
 	ir.Walk(t, func(x ir.Term) bool {
+		// the same table spelled as a string match: smatch(psCurrent(p1).stringVal; "NAME" -> (psNext(p1), var:New_FType_X); …)
+		if sm, ok := x.(*ir.StrMatch); ok && ir.String(f.Path, sm.Scrut) == "psCurrent(p1).stringVal" {
+			for _, a := range sm.Arms {
+				tup, ok := a.Body.Ret.(*ir.Tuple)
+				if !ok || len(tup.Elems) != 2 || ir.String(f.Path, tup.Elems[0]) != "psNext(p1)" {
+					continue
+				}
+				for _, v := range a.Vals {
+					if lit, ok := v.(*ir.Lit); ok {
+						if _, dup := table[lit.Val]; !dup {
+							table[lit.Val] = strings.TrimPrefix(ir.String(f.Path, tup.Elems[1]), "var:New_")
+						}
+					}
+				}
+			}
+			return true
+		}
 		iff, ok := x.(*ir.If)
 		if !ok {
 			return true
